@@ -53,8 +53,34 @@ def run_spec(spec, check_domain=True, b=None):
     if check_domain:
         oracles.check_overflow(res)
         oracles.check_junction_domain(res, pre)
+        preflush_domain(spec, pre)
     return b, res
 
 
 def labels_of(spec):
     return list(spec.get("labels", []))
+
+
+def preflush_domain(spec, pre):
+    """The initial junction flush uses the parameter values computed from the PRE-flush state, which atomica does not record.
+    Recompute them from the inputs with the reference simulator: a plain junction that starts with people while its proportions
+    (pre-flush) sum to <= 0 makes the model ill-posed and is outside the domain of C01/C02/C04."""
+    juncs = [c["name"] for c in spec["comps"] if c["kind"] == "junc"]
+    started = [(pop, j) for (pop, j), x in pre.items() if j in juncs and x > 0]
+    if not started:
+        return
+    from . import refsim
+
+    try:
+        sim = refsim.RefSim(spec)
+        state0 = sim.initial_state()
+        pv = sim.eval_pars(state0, 0)
+    except Exception:
+        return
+    for pop, j in started:
+        outs = [l for l in spec["links"] if l[0] == j]
+        if any(l[2] == ">" for l in outs):
+            continue
+        s = sum(max(float(pv[pop][p]), 0.0) for l in outs for p in l[2])
+        if not (s > 0):
+            raise Discard("plain junction initialised with people while its proportions (pre-flush) sum to <= 0")
